@@ -224,13 +224,14 @@ def adapt_sql(sql, paramstyle):
     args = []
     kwargs = {}
     original_sql = sql
-    if paramstyle in ('format', 'pyformat'): sql = sql.replace('%', '%%')
+    if paramstyle in ('format', 'pyformat'): escape = lambda s: s.replace('%', '%%')
+    else: escape = lambda s: s
     while True:
         try: i = sql.index('$', pos)
         except ValueError:
-            result.append(sql[pos:])
+            result.append(escape(sql[pos:]))
             break
-        result.append(sql[pos:i])
+        result.append(escape(sql[pos:i]))
         if sql[i+1] == '$':
             result.append('$')
             pos = i+2
